@@ -49,6 +49,9 @@ def randgraph(
         if ensurelink:
             k = max(k, 1)
 
+        # never ask for more vertices than there are
+        k = min(k, count)
+
         adj[verts[i]] = random.sample(verts, k)
 
     return adjlist.load_adj_dict(adj, linktype=edge)
